@@ -236,6 +236,7 @@ def gen_cases(ctx, count, n_range, k_range, weakly_modes, want=("ok",), q_per=6,
         nq = n
         queries = []
         hintq = []
+        kind = ""
         if rng.random() < big and n_range[1] >= 5:
             # larger inputs: 6-7 atoms, 8-12 conditionals (>= 10 keys, up to 6 layers)
             n = nq = rng.randint(6, 7)
@@ -271,6 +272,7 @@ def gen_cases(ctx, count, n_range, k_range, weakly_modes, want=("ok",), q_per=6,
         elif weakly and rng.random() < infchain and n_range[1] >= 3:
             n = nq = rng.randint(max(3, n_range[0]), n_range[1])
             conds, queries = core.gen_infchain_case(rng, n)
+            kind = "infchain"
             hintq = list(queries)
             queries = queries[:q_per]
         elif rng.random() < conj and n_range[1] >= 3:
@@ -327,12 +329,21 @@ def gen_cases(ctx, count, n_range, k_range, weakly_modes, want=("ok",), q_per=6,
         r = rng.random()
         if r > 0.9:
             case["inference_kwargs"] = {"_shared": True}
-        if r < 0.06:
+        if r < 0.08 or (kind == "infchain" and r < 0.3):
             # the answer must not depend on how the batch is evaluated or labelled: parallel evaluation, generous budgets that
             # never fire, display options
             case["inference_kwargs"] = rng.choice([{"multi_inference": True}, {"multi_inference": True, "inference_timeout": 600},
                                                    {"inference_timeout": 600, "preprocessing_timeout": 600}, {"total_timeout": 900},
                                                    {"queries_name": "batch-7", "decimals": 3}, {"_warmup": True}, {"_warmup": True}])
+            if case["inference_kwargs"].get("multi_inference") and len(case["queries"]) >= 3:
+                # queries a parallel path might settle (or mis-settle) by itself: unsatisfiable verification / falsification
+                x = ("a", rng.randrange(max(1, n)))
+                y = rng.choice(case["queries"])[2]
+                special = [(("!", x), x), (("F",), y), (("&", x, ("!", x)), y), (("|", x, ("!", x)), y), (x, ("&", y, ("!", y)))]
+                rng.shuffle(special)
+                qs = case["queries"]
+                for j, (b, a) in enumerate(special[:2]):
+                    qs[-1 - j] = [qs[-1 - j][0], b, a]
         cases.append(case)
     return cases
 
